@@ -165,7 +165,9 @@ def gen_hostile(rnd, i):
         else:
             s = b"a.b://" + b"c" * n
     if rnd.random() < 0.25:
-        hs = rnd.choice([b"127.0.0.1", b"::1", b"localhost", b"", b"h" * 2000, b"1" * 300000])
+        # the host argument has no length limit of its own (it is only handed to getaddrinfo): megabyte hosts of every shape
+        hs = rnd.choice([b"127.0.0.1", b"::1", b"localhost", b"", b"h" * 2000, b"1" * 300000, b"[" + b"a" * 300000 + b"]", b"[" * 1000000,
+                         b"[" + b":" * 200000, b"h" * 2000000, b"." * 500000, b"[::1]" + b" " * 400000, b"%" * 300000, b"a." * 200000])
         sv = rnd.choice([b"80", b"", b"http", b"1" * 33, b"1" * 200000, b" 80", b"+80", b"-80", b"80 ", b"0x50", b"8\x000", b"99999\x00x", s[:40]])
         return ("P", hs, sv), {"valid": None}
     return ("U", s), {"valid": None}
